@@ -266,9 +266,13 @@ def search_rename(ctx: Ctx) -> SearchResult:
 		r = check_pair(real, src, mapping, base)
 		if isinstance(r, tuple):
 			f = finding_of(real, src, mapping, base, f"corpus/{rec['file']}")
+			if rec.get('key'):
+				f.key = rec['key']   # a corpus witness of a reported defect carries the key of its proposal
 			if f.key not in found_keys:
 				found_keys.add(f.key)
 				res.findings.append(f)
+
+	corpus_findings = len(res.findings)   # the cap on shrinking below counts generated findings only
 
 	# 2. generated programs × adversarial renamings
 	n_prog = ctx.scale(36, 125)
@@ -304,7 +308,7 @@ def search_rename(ctx: Ctx) -> SearchResult:
 			for a_name in mapping:
 				hist[f'kind:{domain[a_name]}'] += 1
 			r = check_pair(real, src, mapping, base)
-			if isinstance(r, tuple) and len(res.findings) >= ctx.scale(2, 3):
+			if isinstance(r, tuple) and len(res.findings) - corpus_findings >= ctx.scale(2, 3):
 				hist['violations-not-shrunk(findings already reported)'] += 1
 			elif isinstance(r, tuple):
 				# history independence of the verdict: confirm on a fresh App before reporting
@@ -1068,7 +1072,7 @@ STATEMENTS = {
 	'fragment_class_var_name': "pluck_class_var_name('<type> <name> = …') = name for a blank-free type",
 	'regex_identifier_closed': 'in every pattern of PatternParser / CppViewHelper (generated from the source on this run) every character test other than a fixed literal treats all identifier characters [A-Za-z0-9_] alike',
 	'regex_charmap_invariant': 'for every generated pattern and EVERY text: fullmatch gives the same spans and groups on the text and on the text with its identifier characters permuted by any map fixing the identifier characters the pattern spells out',
-	'site_table_no_defect': 'the generated table of all 132 string-comparison sites (ast scan, audited verdicts) contains no defective site (the two startswith(\'const\') sites were repaired in 448468e; the old fact is kept as a regression example over a literal table)',
+	'site_table_defects': 'the generated table of all 183 string-comparison / order-by-spelling / template sites (ast + template scan, audited verdicts) contains exactly two defective sites: the substring tests of func_call/list_sort.j2 (reproduced, proposal written, listed as a known finding); the Iterator / ItemsView prefix tests were repaired in 3ee1aa1',
 	'equivariant': 'bundle of the equivariant_* theorems for an injective renaming that fixes the reserved words',
 	'string_refines': 'bundle of the string_refines_* theorems for well-formed names',
 }
